@@ -11,7 +11,7 @@ NAME = 'PANN'
 SRC = '/repo/src/bloch/compiler/parser/parser.cpp'
 NAMESPACE = 'bloch::compiler'
 FUNCS = ['peek', 'previous', 'isAtEnd', 'advance', 'check', 'checkNext', 'checkFunctionAnnotation', 'match', 'reportError', 'expect',
-         'parseVariableAnnotation', 'parseFunctionAnnotation', 'parseAnnotations']
+         'parseVariableAnnotation', 'parseFunctionAnnotation', 'parseAnnotations', 'isTypeAhead']
 AST_FILTER = ['Parser::' + f for f in FUNCS] + ['TokenType']
 SHIM = 'pann.h'
 THROWING = {'reportError', 'expect', 'parseVariableAnnotation', 'parseFunctionAnnotation', 'parseAnnotations'}
@@ -71,6 +71,11 @@ class Profile(Lower):
         return super().func(d, cname=cname, is_method=is_method)
 
     def decl(self, v):
+        init0 = [i for i in kids(v) if 'kind' in i]
+        if init0 and strip_parens(init0[0]).get('kind') == 'LambdaExpr':
+            self.hoist_lambda(v['name'], strip_parens(init0[0]))
+            self.locals.add(v['name'])
+            return '/* lambda %s hoisted to Parser_%s_%s */;' % (v['name'], self.fn, v['name'])
         if v.get('name') in getattr(self, 'msg_only', set()):
             self.locals.add(v['name'])
             return '/* %s: diagnostic text only, not built */;' % v['name']
@@ -83,6 +88,43 @@ class Profile(Lower):
             self.locals.add(v['name'])
             return 'vec_Ann %s; %s.size = 0;' % (v['name'], v['name'])
         return super().decl(v)
+
+    def hoist_lambda(self, name, lam):
+        """a [&] lambda that captures only `this`: lowered to a function of (self, parameters); a `T&` parameter becomes a pointer"""
+        rec = [k for k in kids(lam) if k.get('kind') == 'CXXRecordDecl'][0]
+        call = [m for m in kids(rec) if m.get('kind') == 'CXXMethodDecl' and m.get('name') == 'operator()'][0]
+        body = [k for k in kids(lam) if k.get('kind') == 'CompoundStmt'][-1]
+        params = [pd for pd in kids(call) if pd.get('kind') == 'ParmVarDecl']
+        caps = []
+        walk(body, lambda z: caps.append(z['referencedDecl'].get('name')) if z.get('kind') == 'DeclRefExpr' and z['referencedDecl'].get('kind') == 'VarDecl' else None)
+        declared = []
+        walk(body, lambda z: declared.append(z.get('name')) if z.get('kind') == 'VarDecl' else None)
+        free = set(caps) - set(declared)
+        if free:
+            raise Unsupported('lambda %s captures locals %s' % (name, sorted(free)))
+        saved = (self.fn, self.loop_k, self.locals, self.tmpn, self.rt, self.ret0, self.needs_prop, self.pre, getattr(self, 'ptr_params', set()))
+        outer = self.fn
+        self.fn = outer + '_' + name
+        self.loop_k = 0
+        self.locals = set(pd['name'] for pd in params)
+        self.rt = 'void'
+        self.ret0 = ''
+        self.ptr_params = set(pd['name'] for pd in params if qt(pd).rstrip().endswith('&') and not qt(pd).strip().startswith('const'))
+        lines = self.stmt(body, 0)
+        lines = [lines[0], '  /*@PROLOGUE:%s@*/' % self.fn] + lines[1:]
+        ps = ['struct Parser *self'] + ['%s %s%s' % (self.ctype(qt(pd)), '*' if pd['name'] in self.ptr_params else '', pd['name']) for pd in params]
+        head = 'void Parser_%s(%s)' % (self.fn, ', '.join(ps))
+        self.fn_loops[self.fn] = self.loop_k
+        self.fn_locals[self.fn] = set(self.locals)
+        self.hoisted = getattr(self, 'hoisted', []) + [(head, ['/*@CONTRACT:%s@*/' % self.fn] + lines)]
+        self.lambda_fns = getattr(self, 'lambda_fns', {})
+        self.lambda_fns[name] = ('Parser_%s' % self.fn, [pd['name'] in self.ptr_params for pd in params])
+        (self.fn, self.loop_k, self.locals, self.tmpn, self.rt, self.ret0, self.needs_prop, self.pre, self.ptr_params) = saved
+
+    def declref(self, n):
+        if n['referencedDecl']['name'] in getattr(self, 'ptr_params', set()) and n['referencedDecl'].get('kind') == 'ParmVarDecl':
+            return '(*%s)' % n['referencedDecl']['name']
+        return super().declref(n)
 
     def string_literal(self, n):
         return 'bl_txt_lit(%s)' % ('0' if n['value'] == '""' else '1')
@@ -116,6 +158,9 @@ class Profile(Lower):
         op = callee_name(ks[0])
         args = ks[1:]
         t0 = self.ct(args[0])
+        if op == 'operator()' and strip_parens(args[0]).get('kind') == 'DeclRefExpr' and strip_parens(args[0])['referencedDecl']['name'] in getattr(self, 'lambda_fns', {}):
+            fnm, isptr = self.lambda_fns[strip_parens(args[0])['referencedDecl']['name']]
+            return '%s(%s)' % (fnm, ', '.join(['self'] + [('&' + self.expr(a)) if isptr[k] else self.expr(a) for k, a in enumerate(args[1:])]))
         if op == 'operator[]' and t0 == 'vec_Token':
             return 'VEC_AT(%s, %s)' % (self.expr(args[0]), self.expr(args[1]))
         if op == 'operator=' and t0 in ('bl_txt', 'Token'):
@@ -188,6 +233,10 @@ def lower(docs, prof):
             unlowered[fn] = 'EXTRACTION BREAK (PANN::%s): %s' % (fn, e)
             head = prof.head_only(ds[0], is_method=True)
             lines = None
+        for hh, hl in getattr(prof, 'hoisted', []):
+            protos.append(hh + ';')
+            bodies.append([hh] + hl)
+        prof.hoisted = []
         protos.append(head + ';')
         if lines is not None:
             bodies.append([head] + lines)
@@ -265,8 +314,39 @@ CONTRACTS = {
                       'decreases': 'TK.size - CUR'}},
     },
 }
+PRIM_TYPES = ['Void', 'Int', 'Float', 'Long', 'Char', 'String', 'Bit', 'Qubit', 'Boolean']
+IS_PRIM_TOK = '(' + ' || '.join('TY(CUR) == BL_%s' % t for t in PRIM_TYPES) + ')'
+CONTRACTS['isTypeAhead_skipTypeArgs'] = {
+    'contract': [
+        R('bl_exc == 0 && __CPROVER_is_fresh(self, sizeof(struct Parser)) && WF_PAR && __CPROVER_is_fresh(i, sizeof(size_t)) && *i < TK.size'),
+        A('*i, g_i0'),
+        E('isTypeAhead.skipTypeArgs.stays_inside_the_token_vector', '*i >= __CPROVER_old(*i) && *i < TK.size', ['C13', 'C12']),
+        E('isTypeAhead.skipTypeArgs.moves_only_onto_a_closing_angle', '(*i != __CPROVER_old(*i)) ==> (TY(__CPROVER_old(*i) + 1) == BL_Less && TY(*i) == BL_Greater)', ['C14']),
+    ],
+    'loops': {0: {'assigns': 'j, depth, *i',
+                  'invariants': [('skipTypeArgs.loop.bounds', 'j >= g_i0 + 1 && j <= TK.size && depth >= 0 && (size_t)depth <= j - g_i0 && *i == g_i0 && (j > g_i0 + 1 ==> depth >= 1)')],
+                  'decreases': 'TK.size - j'}},
+    'prologue': 'g_i0 = *i;',
+}
+CONTRACTS['isTypeAhead'] = {
+    'contract': [
+        R(FRESH), A('g_i0'),
+        # C13: the look-ahead never leaves the token vector, terminates (three loops with decreases clauses) and does not move the cursor
+        E('isTypeAhead.cursor_not_moved', 'CUR == %s' % C0, ['C13', 'C14']),
+        E('isTypeAhead.primitive_type_keyword_starts_a_declaration', IS_PRIM_TOK + ' ==> %s' % RET, ['C14']),
+        E('isTypeAhead.only_type_keywords_and_identifiers_can_start_one', '(!' + IS_PRIM_TOK + ' && TY(CUR) != BL_Identifier) ==> !%s' % RET, ['C14']),
+        E('isTypeAhead.name_followed_by_name_is_a_declaration', '(TY(CUR) == BL_Identifier && TY(CUR + 1) == BL_Identifier) ==> %s' % RET, ['C14']),
+    ],
+    'loops': {0: {'assigns': 'idx', 'invariants': [('isTypeAhead.dots.bounds', 'idx >= CUR && idx < TK.size && TY(idx) == BL_Identifier')], 'decreases': 'TK.size - idx'},
+              1: {'assigns': 'j', 'invariants': [('isTypeAhead.brackets.bounds', 'j >= idx + 2 && j <= TK.size')], 'decreases': 'TK.size - j'}},
+}
+GHOSTS += 'size_t g_i0;\n'
 PARSERS = ['peek', 'previous', 'isAtEnd', 'advance', 'check', 'checkNext', 'match', 'reportError', 'expect']
 HARNESSES = [
+    dict(name='isTypeAhead_skipTypeArgs', fn='isTypeAhead_skipTypeArgs', replace=[], flags=[], props=['C13', 'C14', 'C12'], timeout=300, unwind=10, canaries=[('1', 'return')],
+         cbmc_args=['--sat-solver', 'cadical'], bounded_cbmc_args=['--sat-solver', 'cadical'], second_solver=False),
+    dict(name='isTypeAhead', fn='isTypeAhead', replace=['isTypeAhead_skipTypeArgs'], flags=[], props=['C13', 'C14', 'C12'], timeout=300, unwind=10,
+         canaries=[('1', 'return')]),
     dict(name='advance', fn='advance', replace=[], flags=[], props=['C13', 'C12'], timeout=120, canaries=[('1', 'return')]),
     dict(name='expect', fn='expect', replace=[], flags=[], props=['C13', 'C14', 'C12'], timeout=120, canaries=[('bl_exc == 0', 'consumed'), ('bl_exc != 0', 'reported')]),
     dict(name='parseVariableAnnotation', fn='parseVariableAnnotation', replace=[], flags=[], props=['C14', 'C13', 'C12'], timeout=300, canaries=[('bl_exc == 0', 'accepted'), ('bl_exc != 0', 'rejected')]),
